@@ -114,6 +114,27 @@ pub fn run(case: &Value) -> Vec<Value> {
     let bytes = case["bytes"].as_bool().unwrap_or(false);
     let alpha: Vec<u8> = case["alphabet"].as_str().unwrap_or("<>/!-=\"' asxt[]?").as_bytes().to_vec();
     let mut out = Vec::new();
+    // random concatenations of grammar FRAGMENTS (markup declarations, CDATA, raw-text elements and their end tags in several
+    // spellings, attributes, entities, NUL), the tail cut at a random character: reaches the states single characters hardly form
+    if case.get("frags").and_then(|x| x.as_bool()).unwrap_or(false) {
+        const FRAGS: [&str; 40] = ["<![CDATA[", "]]>", "<!--", "-->", "--!>", "<!-->", "<script>", "</script>", "</scrip", "</SCRIPT >", "<SCRIPT type=x>", "<!DOCTYPE html>",
+            "<!doctype html PUBLIC \"a\" 'b'>", "<?php", "?>", "<a b=\"c\">", "<a b='c' d=e f>", "</a>", "</a b=c>", "</ a>", "</>", "</1>", "x", " ", "<", ">", "/", "=", "\"", "'",
+            "<textarea>", "</textarea>", "<title>", "</TITLE>", "&amp;", "\u{0}", "\u{e9}", "<style>", "</style/>", "<br/>"];
+        for _ in 0..n {
+            let k = rng.gen_range(1..=8);
+            let mut input = String::new();
+            for _ in 0..k {
+                input.push_str(FRAGS[rng.gen_range(0..FRAGS.len())]);
+            }
+            if rng.gen_bool(0.5) && !input.is_empty() {
+                let mut cut = rng.gen_range(0..input.len());
+                while !input.is_char_boundary(cut) { cut -= 1; }
+                input.truncate(cut);
+            }
+            out.push(run_one(input.into_bytes(), true));
+        }
+        return out;
+    }
     // valid UTF-8 over an alphabet of CHARACTERS, some of them multi-byte with continuation bytes that look like
     // Latin-1 white space (0x85, 0xA0): the accessors must succeed on every token
     if let Some(chars) = case.get("chars").and_then(|x| x.as_str()) {
